@@ -552,7 +552,7 @@ def _manifest_doc(kind, table):
 def fam_payload_nested(kind, as_list):
     """the manifest table (stored as given by the three manifest readers) nested n levels deep"""
     def gen(n, dup=False):
-        inner = _nested(n, {} if not as_list else [], as_list)
+        inner = _nested(n, {"path": "Server/x86_64/os/a.rpm", "n": 1} if not as_list else ["x", 1], as_list)
         return kind, _manifest_doc(kind, {"Server": {"x86_64": inner}})
     return gen
 
